@@ -136,6 +136,99 @@ def _initfiles_by_evaluation(ctx, rep, dirbase, pi) -> bool:
     return True
 
 
+
+def hash_order_obligations(ctx, rep, rule):
+    """Nothing that ends up in a listing is taken from a set in iteration order: the order of a set of strings changes from one
+    interpreter start to the next (hash randomisation), so entries, link files or names iterated from one make the menu depend on more
+    than names and metadata."""
+    prog = ctx.prog
+    SETMAKERS = ("set", "frozenset")
+    ORDER_FREE = ("sorted", "len", "any", "all", "min", "max", "sum", "set", "frozenset", "bool")
+    n_sets, sites = 0, []
+
+    def set_valued(e) -> bool:
+        if isinstance(e, (ast.Set, ast.SetComp)):
+            return True
+        if isinstance(e, ast.Call) and (dotted(e.func) or "") in SETMAKERS:
+            return True
+        if isinstance(e, ast.BinOp) and isinstance(e.op, (ast.BitOr, ast.BitAnd, ast.Sub, ast.BitXor)):
+            return set_valued(e.left) or set_valued(e.right)
+        if isinstance(e, ast.Call) and isinstance(e.func, ast.Attribute) and e.func.attr in ("union", "intersection", "difference", "symmetric_difference", "copy") \
+                and set_valued(e.func.value):
+            return True
+        return False
+
+    for mod in prog.modules.values():
+        if not mod.name.startswith(("pygopherd.handlers", "pygopherd.protocols")) and mod.name != "pygopherd.gopherentry":
+            continue
+        if ".tests" in mod.name:
+            continue
+        classes = list(mod.classes.values())
+        funcs = list(mod.functions.values()) + [m for c in classes for m in c.methods.values()]
+        # names that hold a set: self.X anywhere in the class hierarchy's module, locals per function
+        set_attrs = set()
+        for f in funcs:
+            for n in ast.walk(f.node):
+                if isinstance(n, ast.Assign) and set_valued(n.value):
+                    for t in n.targets:
+                        if isinstance(t, ast.Attribute) and dotted(t.value) in ("self", "cls"):
+                            set_attrs.add(t.attr)
+                if isinstance(n, ast.AnnAssign) and n.value is not None and set_valued(n.value) and isinstance(n.target, ast.Attribute):
+                    set_attrs.add(n.target.attr)
+        for c in classes:
+            for k, v in c.attrs.items():
+                if set_valued(v):
+                    set_attrs.add(k)
+        for f in funcs:
+            locs = set()
+            for n in ast.walk(f.node):
+                if isinstance(n, ast.Assign) and set_valued(n.value):
+                    locs |= {t.id for t in n.targets if isinstance(t, ast.Name)}
+
+            def is_set(e):
+                if set_valued(e):
+                    return True
+                if isinstance(e, ast.Name) and e.id in locs:
+                    return True
+                if isinstance(e, ast.Attribute) and dotted(e.value) in ("self", "cls") and e.attr in set_attrs:
+                    return True
+                return False
+
+            if locs or set_attrs:
+                n_sets += 1
+            from ..structure import parents
+
+            pm = None
+            for n in ast.walk(f.node):
+                it = None
+                if isinstance(n, (ast.For, ast.AsyncFor)) and is_set(n.iter):
+                    it = n.iter
+                elif isinstance(n, ast.comprehension) and is_set(n.iter):
+                    it = n.iter
+                    # a comprehension consumed by an order-free function, or building a set, is fine
+                    pm = pm or parents(f.node)
+                    comp = pm.get(n)
+                    outer = pm.get(comp)
+                    if isinstance(comp, ast.SetComp) or (isinstance(outer, ast.Call) and (dotted(outer.func) or "") in ORDER_FREE):
+                        it = None
+                elif isinstance(n, ast.Call) and n.args and is_set(n.args[0]):
+                    d = dotted(n.func) or ""
+                    if d in ("list", "tuple", "enumerate", "iter", "next", "zip", "map", "filter") or (
+                            isinstance(n.func, ast.Attribute) and n.func.attr in ("extend", "join", "writelines")):
+                        it = n.args[0]
+                elif isinstance(n, ast.Starred) and is_set(n.value):
+                    it = n.value
+                if it is not None:
+                    sites.append((f, n if not isinstance(n, ast.comprehension) else it, it))
+    for f, node, it in sites:
+        rep.add(rule, f"{f.qualname}: iteration over {norm(it)[:40]}", False, ctx.where(f, node),
+                f"`{norm(it)[:50]}` is a set: its iteration order follows string hashes, which differ from one server start to the next - what is "
+                "built from it (entries, link files read, names) comes in an order that names and metadata do not determine; sort it first",
+                key=f"{rule}|{f.qualname}|{norm(it)[:50]}")
+    if not sites:
+        rep.ok(rule, f"no set is iterated in handlers, protocols or entries [{n_sets} functions see a set]", "pygopherd/handlers", "", key=f"{rule}|none")
+
+
 def check(ctx, rep):
     prog = ctx.prog
     eff = Effects(prog, ctx.resolver)
@@ -155,6 +248,9 @@ def check(ctx, rep):
              "entry by bytes that are not UTF-8 still equals that entry's selector, so hiding and merging work for it", floor=1)
     rep.rule("R07p", "= R10f: the selector filter lets ordinary names through (one character long, with dots or blanks inside, starting with a dot, "
              "not UTF-8) - a name it refuses drops out of every listing and cannot be fetched", floor=1)
+    rep.rule("R07q", "nothing on the listing path iterates a set (for, comprehension, list(), extend(), join()): set order follows randomised string "
+             "hashes, so it is not a function of names and metadata; sorted(), len(), membership and the like are fine", floor=1)
+    hash_order_obligations(ctx, rep, "R07q")
     rep.rule("R07i", "= R10c: the listing kept for later requests is the final one (hidden names removed, merged, sorted) - never an intermediate list", floor=2)
     rep.rule("R07h", "the real-file-system VFS lists names exactly as the OS returns them (file-system decoding only): the selector built from a listed name is the name on disk", floor=1)
     rep.rule("R07f", "a name is appended to the file list exactly when the filter accepts it, once", floor=1)
